@@ -47,6 +47,10 @@ def generate(rng: random.Random, tier: str):
     yield from counted_cases(rng, 6 if quick else 60)
     # steps as an untrusted peer may send them: slices that claim to be more open than their content is deep
     yield from overopen_cases(rng, 30 if quick else 400)
+    # ... and steps whose range ends before it starts (from > to)
+    yield from reversed_range_cases(rng, 40 if quick else 400)
+    # ... and empty slices that claim open sides, at positions whose depths are consistent with the claim
+    yield from empty_open_cases(rng, 160 if quick else 1200)
 
 
 def counted_cases(rng, n):
@@ -133,6 +137,57 @@ def overopen_cases(rng, n):
             except Exception:  # noqa: BLE001
                 continue
             yield S.apply_case(fam, doc, st, True, "overopen-slice")[0]
+
+
+def reversed_range_cases(rng, n):
+    """mark, replace and replace-around steps with from > to, as a peer may send them: they must be refused"""
+    from prosemirror.model import Fragment, Slice
+    from prosemirror.transform import AddMarkStep, RemoveMarkStep, ReplaceStep
+    for fam in ("list", "blockmarks"):
+        g, docs = S.family_docs(rng, fam, 6)
+        sc = gen.family(fam)
+        for _ in range(n // 2):
+            doc = rng.choice(docs)
+            ps = S.boundary_positions(doc)
+            a, c = sorted((rng.choice(ps), rng.choice(ps)))
+            if a == c:
+                continue
+            r = rng.random()
+            if r < 0.4:
+                st = AddMarkStep(c, a, S.rand_mark(rng, sc))
+            elif r < 0.7:
+                st = RemoveMarkStep(c, a, S.rand_mark(rng, sc))
+            else:
+                ra, rc = doc.resolve(a), doc.resolve(c)
+                # open depths that make the depth checks of Node.replace pass for the reversed pair
+                d = min(ra.depth, rc.depth)
+                sl = Slice(Fragment.empty, rc.depth - d, ra.depth - d) if rng.random() < 0.7 else Slice.empty
+                st = ReplaceStep(c, a, sl)
+            try:
+                st = Step.from_json(sc, json.loads(json.dumps(st.to_json())))
+            except Exception:  # noqa: BLE001
+                continue
+            yield S.apply_case(fam, doc, st, True, "reversed-range")[0]
+
+
+def empty_open_cases(rng, n):
+    from prosemirror.model import Fragment, Slice
+    from prosemirror.transform import ReplaceStep
+    for fam in ("list", "table"):
+        g, docs = S.family_docs(rng, fam, 6)
+        sc = gen.family(fam)
+        for _ in range(n // 2):
+            doc = rng.choice(docs)
+            ps = S.boundary_positions(doc)
+            a, c = sorted((rng.choice(ps), rng.choice(ps)))
+            ra, rc = doc.resolve(a), doc.resolve(c)
+            os_ = rng.randint(0, ra.depth)
+            oe = rc.depth - (ra.depth - os_)
+            if oe < 0 or (os_ == 0 and oe == 0):
+                continue
+            # built directly: Slice.to_json drops the open depths of an empty slice, so JSON cannot carry this shape
+            st = ReplaceStep(a, c, Slice(Fragment.empty, os_, oe))
+            yield S.apply_case(fam, doc, st, True, "empty-open-slice")[0]
 
 
 def Mark_same(a, b):
